@@ -157,6 +157,7 @@ def merge_e2(results):
         for k, v in r['known_hits'].items():
             r0['known_hits'].setdefault(k, v)
         r0['inconclusive'] = sorted(set(r0['inconclusive']) | set(r['inconclusive']))
+        r0['hang'] = bool(r0.get('hang')) or bool(r.get('hang'))
         for k, v in r.get('covers', {}).items():
             r0['covers'][k] = r0['covers'].get(k, 0) + v
         for k, v in r.get('stats', {}).items():
@@ -425,19 +426,28 @@ def write_replay_file(path, name, vals, comment=''):
             f.write(','.join(str(b) for b in v) + '\n')
 
 
-def native_replay(work, crate, replay_path, release=False, timeout=1200):
-    """run the same harness body natively against the real functions. returns (reproduced, detail)"""
+def native_replay(work, crate, replay_path, release=False, timeout=1200, hang=False):
+    """run the same harness body natively against the real functions. returns (reproduced, detail).
+    hang=True: the counterexample claims non-termination; the test binary is built first and then run with a 60 s limit -
+    not finishing within it reproduces the counterexample"""
     tdir = os.path.join(work, 'target-native')
     cmd = ['cargo', 'test', '--offline', '-p', CRATES[crate], '--lib', '--target-dir', tdir]
     if release:
         cmd.append('--release')
-    cmd += ['verif_replay', '--', '--nocapture', '--test-threads', '1']
     e = env_for(work)
     e['VERIF_REPLAY'] = replay_path
     e['RUST_BACKTRACE'] = '0'
+    if hang:
+        b = subprocess.run(cmd + ['--no-run'], cwd=REPO, env=e, capture_output=True, text=True, timeout=timeout)
+        if b.returncode != 0:
+            return False, 'native replay build failed: ' + (b.stdout + b.stderr)[-1500:]
+    cmd += ['verif_replay', '--', '--nocapture', '--test-threads', '1']
     try:
-        p = subprocess.run(cmd, cwd=REPO, env=e, capture_output=True, text=True, timeout=timeout)
+        p = subprocess.run(cmd, cwd=REPO, env=e, capture_output=True, text=True, timeout=60 if hang else timeout)
     except subprocess.TimeoutExpired:
+        if hang:
+            subprocess.run(['pkill', '-9', '-f', os.path.join(tdir, 'debug/deps/autosar_data')], capture_output=True)
+            return True, 'native run did not terminate within 60 s'
         return False, 'native replay timed out'
     out = p.stdout + p.stderr
     if 'error: could not compile' in out or 'error[E' in out:
